@@ -56,6 +56,55 @@ def gr_post(I, outcome, ctx):
         I.oblige('ensures.bounds.' + which, _ranges_ok(I, v, n, which))
 
 
+def _S():
+    return z3.StringSort()
+
+
+def gr_body_hook(I):
+    r = I.local('result')
+    if isinstance(r, VCList):
+        r = clist_to_sym(r, RANGE_T)
+    I.st.ghost['RESULT_AT_ITER_START'] = r
+
+
+def gr_iter_hook(I):
+    """EXACTNESS (from the property: "Range requests return exactly the requested bytes"): at the end of an iteration that goes on,
+    what the iteration did to `result` is what RFC 7233 prescribes for this byte-range-spec: first-last -> (first, min(last, n-1)+1),
+    first- -> (first, n), -k -> (max(n-k, 0), n); unsatisfiable specs add nothing.  The spec is written over the same (trusted)
+    string functions the code uses: split at the first '-', strip, int."""
+    g = I.st.ghost
+    r0 = g.get('RESULT_AT_ITER_START')
+    r1 = I.local('result')
+    if r0 is None or not isinstance(r1, VList):
+        return
+    cover(I, 'iteration')
+    b = lib.unopt(I, I.local('brange')).t
+    n = I.local('content_length').t
+    dash = z3.StringVal('-')
+    idx = z3.IndexOf(b, dash, 0)
+    strip = core.fn('py_strip', _S(), _S())
+    ival = core.fn('py_int_val', _S(), z3.IntSort())
+    p0 = strip(z3.SubString(b, 0, idx))
+    p1 = strip(z3.SubString(b, idx + 1, z3.Length(b) - idx - 1))
+    A, B = ival(p0), ival(p1)
+    first_form = p0 != z3.StringVal('')
+    open_ended = p1 == z3.StringVal('')
+    exp_a = z3.If(first_form, A, z3.If(n - B > 0, n - B, 0))
+    exp_b = z3.If(first_form, z3.If(open_ended, n, z3.If(B < n - 1, B, n - 1) + 1), n)
+    appended = r1.hi == r0.hi + 1
+    same = r1.hi == r0.hi
+    a, bb = z3.Select(r1.arrs[0], r0.hi), z3.Select(r1.arrs[1], r0.hi)
+    I.oblige('exact.iteration_appends_at_most_one_range', z3.Or(appended, same))
+    I.oblige('exact.appended_range_is_the_requested_one', z3.Implies(appended, z3.And(a == exp_a, bb == exp_b)),
+             detail='first-last -> (first, min(last, n-1)+1); first- -> (first, n); -k -> (max(n-k,0), n)')
+    satisfiable = z3.If(first_form, A < n, z3.And(B > 0, n > 0))
+    I.oblige('exact.unsatisfiable_spec_adds_nothing', z3.Implies(z3.Not(satisfiable), same))
+    j = core.fresh('dj', z3.IntSort())
+    dup = z3.Exists([j], z3.And(r0.lo <= j, j < r0.hi, z3.Select(r0.arrs[0], j) == exp_a, z3.Select(r0.arrs[1], j) == exp_b))
+    I.oblige('exact.satisfiable_spec_not_dropped', z3.Implies(z3.And(satisfiable, z3.Not(dup)), appended),
+             detail='every satisfiable byte-range-spec contributes its range (duplicates once)')
+
+
 def s_stddev(I, recv, args, kw):
     I.st.trusted_used.add('circuits.web.utils.stddev: returns some real number (pure)')
     return VReal(core.fresh('stddev', z3.RealSort()))
@@ -81,6 +130,26 @@ bad = [t for t in (r or []) if not (0 <= t[0] < t[1] <= n)]
 print('get_ranges(%%r, %%r) = %%r' %% (hv, n, r))
 if bad:
     print('ranges outside [0, %%d]: %%r' %% (n, bad)); sys.exit(1)
+# exactness against an independent reading of RFC 7233 (only for headers made of plain first-last / first- / -suffix specs)
+import re
+def rfc(hv, n):
+    if '=' not in hv: return 'n/a'
+    out = []
+    for spec in hv.split('=', 1)[1].split(','):
+        m = re.fullmatch(r'\s*(\d*)\s*-\s*(\d*)\s*', spec)
+        if not m or (m.group(1) == '' and m.group(2) == ''): return 'n/a'
+        a, b = m.group(1), m.group(2)
+        if a == '':
+            k = int(b); t = (max(n - k, 0), n) if k > 0 and n > 0 else None
+        else:
+            a = int(a)
+            if b != '' and int(b) < a: return 'n/a'      # reversed: header ignored or 416, not judged here
+            t = (a, (min(int(b), n - 1) if b != '' else n - 1) + 1) if a < n else None
+        if t is not None and t not in out: out.append(t)
+    return out
+want = rfc(hv or '', n)
+if want != 'n/a' and r is not None and list(map(tuple, r)) != want:
+    print('not the requested bytes: RFC 7233 gives %%r' %% (want,)); sys.exit(1)
 sys.exit(0)
 ''' % (s, n)
 
@@ -89,10 +158,11 @@ SPECS.append(FucSpec(
     'C16', 'circuits/web/utils.py', 'get_ranges', gr_setup, gr_post,
     calls={'stddev': s_stddev},
     loops={0: LoopSpec(inv=[('lower', gr_inv('lower')), ('order', gr_inv('order')), ('upper', gr_inv('upper'))],
-                       kinds={'result': List(RANGE_T)})},
+                       kinds={'result': List(RANGE_T)}, body_hook=gr_body_hook, iter_hook=gr_iter_hook)},
     exc_parents={'RangeUnsatisfiable': 'Exception'},
-    replay=gr_replay, cover=['none', 'list'],
-    clause='every returned range (a,b) satisfies 0 <= a < b <= content_length; no exception but RangeUnsatisfiable escapes',
+    replay=gr_replay, cover=['none', 'list', 'iteration'],
+    clause='every returned range (a,b) satisfies 0 <= a < b <= content_length; no exception but RangeUnsatisfiable escapes; each '
+           'byte-range-spec contributes exactly the range RFC 7233 prescribes (first-last, first-, -suffix), unsatisfiable ones nothing',
 ))
 
 
